@@ -13,6 +13,517 @@ use crate::l2_shift::*;
 use crate::l3_divlimb::*;
 verus! {
 
+// core integer method without a vstd specification (assumed, like the ones in speclib.rs)
+pub assume_specification [u32::div_ceil] (a: u32, b: u32) -> (r: u32)
+    requires b != 0
+    ensures r as int == (a as int + b as int - 1) / (b as int);
+
+// ---------------------------------------------------------------------------------------------
+// Private vocabulary and lemmas of the constant-time Knuth division proof (all names ct_*).
+// ---------------------------------------------------------------------------------------------
+
+spec fn ct_maxn(a: nat, b: nat) -> nat { if a >= b { a } else { b } }
+
+/// value of the limbs p..n of s, scaled down by B^p
+spec fn ct_tvq(s: Seq<Limb>, p: nat, n: nat) -> int
+    decreases n
+{ if n <= p { 0 } else { ct_tvq(s, p, (n - 1) as nat) + s[n - 1].0 as int * bp((n - 1 - p) as nat) } }
+
+/// Knuth 4.3.1 Theorem B in the form needed here: the quotient of the top three by the top two limbs
+/// (saturated to B-1) over-estimates the true quotient digit by at most one.
+proof fn ct_lemma_knuth_digit(wv: int, y: int, u3: int, v2: int, wl: int, yl: int, e: int, q: int)
+    requires
+        e >= 1, wv == u3 * e + wl, 0 <= wl < e, y == v2 * e + yl, 0 <= yl < e,
+        0 <= wv < y * B(), 2 * y >= B() * B() * e, u3 >= 0, v2 > 0,
+        q == min_int(B() - 1, u3 / v2),
+    ensures
+        wv / y <= q <= wv / y + 1, 0 <= wv / y <= B() - 1,
+{
+    let b = B();
+    let qt = wv / y;
+    assert(y > 0) by (nonlinear_arith) requires 2 * y >= b * b * e, e >= 1, b == B();
+    lemma_fundamental_div_mod(wv, y);
+    lemma_mod_bound(wv, y);
+    lemma_div_pos_is_pos(wv, y);
+    assert(y * qt == qt * y) by (nonlinear_arith);
+    assert(qt * y <= wv < (qt + 1) * y) by (nonlinear_arith) requires wv == y * qt + wv % y, 0 <= wv % y < y;
+    assert(qt < b) by (nonlinear_arith) requires qt * y <= wv, wv < y * b, y > 0;
+    let q3 = u3 / v2;
+    lemma_fundamental_div_mod(u3, v2);
+    lemma_mod_bound(u3, v2);
+    lemma_div_pos_is_pos(u3, v2);
+    assert(v2 * q3 == q3 * v2) by (nonlinear_arith);
+    assert(q3 * v2 <= u3 < (q3 + 1) * v2) by (nonlinear_arith) requires u3 == v2 * q3 + u3 % v2, 0 <= u3 % v2 < v2;
+    // qt <= q3
+    assert(qt * (v2 * e) <= qt * y) by (nonlinear_arith) requires qt >= 0, y == v2 * e + yl, yl >= 0;
+    assert(qt * (v2 * e) == qt * v2 * e) by (nonlinear_arith);
+    assert(qt * v2 < u3 + 1) by (nonlinear_arith) requires qt * v2 * e <= wv, wv == u3 * e + wl, wl < e, e >= 1;
+    assert(qt < q3 + 1) by (nonlinear_arith) requires qt * v2 <= u3, u3 < (q3 + 1) * v2, v2 > 0;
+    assert(qt <= q);
+    // q <= qt + 1
+    if q >= qt + 2 {
+        assert(q <= q3);
+        assert(q * v2 <= u3) by (nonlinear_arith) requires q <= q3, q3 * v2 <= u3, v2 > 0;
+        assert((qt + 2) * v2 <= q * v2) by (nonlinear_arith) requires qt + 2 <= q, v2 > 0;
+        assert((qt + 2) * v2 * e <= u3 * e) by (nonlinear_arith) requires (qt + 2) * v2 <= u3, e >= 1;
+        assert((qt + 2) * v2 * e == (qt + 2) * y - (qt + 2) * yl) by (nonlinear_arith) requires y == v2 * e + yl;
+        assert((qt + 2) * yl <= (qt + 2) * e) by (nonlinear_arith) requires qt + 2 >= 0, yl <= e;
+        assert((qt + 2) * y == (qt + 1) * y + y) by (nonlinear_arith);
+        assert(y < (qt + 2) * e);
+        assert((qt + 2) * e <= (b + 1) * e) by (nonlinear_arith) requires qt + 2 <= b + 1, e >= 1;
+        assert(b * b * e > 2 * ((b + 1) * e)) by (nonlinear_arith) requires e >= 1, b == 0x1_0000_0000_0000_0000;
+        assert(false);
+    }
+}
+
+proof fn ct_lemma_tv_factor(s: Seq<Limb>, p: nat, n: nat)
+    requires p <= n
+    ensures tv(s, p, n) == bp(p) * ct_tvq(s, p, n), ct_tvq(s, p, n) >= 0
+    decreases n - p
+{
+    if n > p {
+        ct_lemma_tv_factor(s, p, (n - 1) as nat);
+        lemma_bp_add(p, (n - 1 - p) as nat);
+        lemma_bp_succ((n - 1 - p) as nat);
+        let a = s[n - 1].0 as int; let e = bp((n - 1 - p) as nat);
+        assert((p + (n - 1 - p)) as nat == (n - 1) as nat);
+        assert(bp(p) * (ct_tvq(s, p, (n - 1) as nat) + a * e) == bp(p) * ct_tvq(s, p, (n - 1) as nat) + a * (bp(p) * e)) by (nonlinear_arith);
+        assert(a * e >= 0) by (nonlinear_arith) requires a >= 0, e > 0;
+    } else {
+        assert(bp(p) * 0 == 0);
+    }
+}
+
+/// value of the top m limbs of y (length n), unscaled
+proof fn ct_lemma_top_limbs(y: Seq<Limb>, n: nat, yc: nat, m: nat, yv: int)
+    requires 1 <= yc <= m <= n, val(y, n) == yv * bp((n - yc) as nat), forall|j: int| 0 <= j < n - yc ==> y[j].0 == 0,
+    ensures ct_tvq(y, (n - m) as nat, n) == yv * bp((m - yc) as nat)
+{
+    let lo = (n - m) as nat;
+    ct_lemma_tv_factor(y, lo, n);
+    lemma_val_hi_zero(y, 0, lo);
+    assert(val(y, 0) == 0);
+    lemma_bp_add(lo, (m - yc) as nat);
+    assert((lo + (m - yc)) as nat == (n - yc) as nat);
+    lemma_bp_succ(lo);
+    let t = ct_tvq(y, lo, n); let e = bp((m - yc) as nat); let pl = bp(lo);
+    assert(pl * t == yv * (pl * e));
+    assert(yv * (pl * e) == pl * (yv * e)) by (nonlinear_arith);
+    assert(t == yv * e) by (nonlinear_arith) requires pl * t == pl * (yv * e), pl > 0;
+}
+
+/// ct_tvq over a window equals val of the corresponding subrange
+proof fn ct_lemma_tvq_sub(s: Seq<Limb>, p: nat, n: nat)
+    requires p <= n <= s.len()
+    ensures ct_tvq(s, p, n) == val(s.subrange(p as int, s.len() as int), (n - p) as nat)
+    decreases n - p
+{
+    if n > p {
+        ct_lemma_tvq_sub(s, p, (n - 1) as nat);
+        let t = s.subrange(p as int, s.len() as int);
+        assert(t[n - 1 - p] == s[n - 1]);
+        assert((n - p - 1) as nat == (n - 1 - p) as nat);
+    }
+}
+
+/// if val(s, n) is a multiple of B^lo then the low lo limbs are zero
+proof fn ct_lemma_val_small_low(s: Seq<Limb>, lo: nat, n: nat, yv: int)
+    requires lo <= n, val(s, n) == yv * bp(lo),
+    ensures forall|j: int| 0 <= j < lo ==> s[j].0 == 0,
+{
+    ct_lemma_tv_factor(s, lo, n);
+    lemma_val_bound(s, lo);
+    lemma_bp_succ(lo);
+    let a = val(s, lo); let t = ct_tvq(s, lo, n); let pl = bp(lo);
+    assert(a == pl * (yv - t)) by (nonlinear_arith) requires a + pl * t == yv * pl;
+    assert(yv - t == 0) by (nonlinear_arith) requires a == pl * (yv - t), 0 <= a < pl, pl > 0;
+    assert(a == 0) by (nonlinear_arith) requires a == pl * (yv - t), yv - t == 0;
+    lemma_val_zero_iff(s, lo);
+}
+
+/// Normalisation: facts about the shifted divisor y = rhs << (BITS - dbits) and the shifted dividend.
+proof fn ct_lemma_setup(y: Seq<Limb>, n: nat, dbits: nat, lshift: nat, yc: nat, rv: int, sv: int)
+    requires
+        n >= 1, 0 < dbits <= 64 * n,
+        yc as int == (dbits + 63) / 64, lshift as int == (64 - dbits % 64) % 64,
+        p2((dbits - 1) as nat) <= rv < p2(dbits), 0 <= sv < bp(n),
+        val(y, n) == (rv * p2((64 * n - dbits) as nat)) % bp(n),
+    ensures
+        1 <= yc <= n, dbits + lshift == 64 * yc, lshift < 64, p2(lshift) > 0,
+        2 * (rv * p2(lshift)) >= bp(yc), rv * p2(lshift) < bp(yc), rv * p2(lshift) > 0,
+        val(y, n) == (rv * p2(lshift)) * bp((n - yc) as nat),
+        forall|j: int| 0 <= j < n - yc ==> y[j].0 == 0,
+        y[n - 1].0 as int >= B() / 2,
+        0 <= sv * p2(lshift) < (rv * p2(lshift)) * bp((n + 1 - yc) as nat),
+{
+    let s2 = p2(lshift); let yv = rv * s2; let xv = sv * s2;
+    let d = (n - yc) as nat;
+    lemma_bp_succ(0); lemma_pow2_pos(lshift); lemma_pow2_pos((dbits - 1) as nat);
+    assert(dbits + lshift == 64 * yc);
+    assert(1 <= yc <= n);
+    lemma_bp_pow2(yc); lemma_bp_pow2(n); lemma_bp_pow2(d);
+    lemma_pow2_adds((dbits - 1) as nat, lshift);
+    lemma_pow2_adds(dbits, lshift);
+    lemma_pow2_unfold((64 * yc) as nat);
+    assert((dbits - 1 + lshift) as nat == (64 * yc - 1) as nat);
+    assert(rv * s2 >= p2((dbits - 1) as nat) * s2) by (nonlinear_arith) requires rv >= p2((dbits - 1) as nat), s2 > 0;
+    assert(rv * s2 < p2(dbits) * s2) by (nonlinear_arith) requires rv < p2(dbits), s2 > 0;
+    assert(2 * yv >= bp(yc) && yv < bp(yc));
+    // y = rv * 2^(64n - dbits) = yv * B^(n - yc), no wrap
+    let sh = (64 * n - dbits) as nat;
+    assert(sh == lshift + 64 * d);
+    lemma_pow2_adds(lshift, 64 * d);
+    assert(p2(sh) == s2 * bp(d));
+    assert(rv * (s2 * bp(d)) == yv * bp(d)) by (nonlinear_arith) requires yv == rv * s2;
+    lemma_bp_add(yc, d); lemma_bp_succ(d);
+    assert((yc + d) as nat == n);
+    assert(yv * bp(d) < bp(yc) * bp(d)) by (nonlinear_arith) requires yv < bp(yc), bp(d) > 0;
+    assert(yv * bp(d) >= 0) by (nonlinear_arith) requires yv >= 0, bp(d) > 0;
+    lemma_small_mod((yv * bp(d)) as nat, bp(n) as nat);
+    assert(val(y, n) == yv * bp(d));
+    // top limb of y normalised
+    lemma_val_bound(y, (n - 1) as nat);
+    lemma_bp_succ((n - 1) as nat);
+    let top = y[n - 1].0 as int; let pt = bp((n - 1) as nat);
+    assert(2 * (yv * bp(d)) >= bp(yc) * bp(d)) by (nonlinear_arith) requires 2 * yv >= bp(yc), bp(d) > 0;
+    assert(2 * top >= B() - 1) by (nonlinear_arith)
+        requires 2 * (val(y, (n - 1) as nat) + top * pt) >= B() * pt, val(y, (n - 1) as nat) <= pt - 1, pt > 0;
+    assert(top >= B() / 2);
+    ct_lemma_val_small_low(y, d, n, yv);
+    // initial remainder bound
+    lemma2_to64(); lemma2_to64_rest();
+    if lshift < 63 { lemma_pow2_strictly_increases(lshift, 63); }
+    assert(s2 <= 0x8000_0000_0000_0000);
+    let d1 = (n + 1 - yc) as nat;
+    lemma_bp_add(yc, d1);
+    assert((yc + d1) as nat == (n + 1) as nat);
+    lemma_bp_succ(n); lemma_bp_succ(d1);
+    assert(xv < s2 * bp(n)) by (nonlinear_arith) requires xv == sv * s2, sv < bp(n), s2 > 0;
+    assert(xv >= 0) by (nonlinear_arith) requires xv == sv * s2, sv >= 0, s2 > 0;
+    assert(s2 * bp(n) <= 0x8000_0000_0000_0000 * bp(n)) by (nonlinear_arith) requires s2 <= 0x8000_0000_0000_0000, bp(n) > 0;
+    assert(2 * (yv * bp(d1)) >= bp(yc) * bp(d1)) by (nonlinear_arith) requires 2 * yv >= bp(yc), bp(d1) > 0;
+}
+
+/// The running high limb never exceeds the top divisor limb (precondition of div3by2).
+proof fn ct_lemma_hi_le_top(xb: Seq<Limb>, y: Seq<Limb>, h: int, n: nat, yc: nat, k: nat, yv: int)
+    requires
+        1 <= yc <= n, 1 <= k <= n, k + 1 >= yc, h >= 0,
+        val(y, n) == yv * bp((n - yc) as nat),
+        h * bp(k) + val(xb, k) < yv * bp((k + 1 - yc) as nat),
+    ensures
+        h <= y[n - 1].0 as int,
+{
+    let top = y[n - 1].0 as int;
+    let e = bp((yc - 1) as nat); let f = bp((n - yc) as nat); let g = bp((k + 1 - yc) as nat);
+    lemma_bp_succ(k); lemma_bp_succ((yc - 1) as nat); lemma_bp_succ((n - yc) as nat); lemma_bp_succ((k + 1 - yc) as nat);
+    lemma_val_bound(xb, k);
+    lemma_val_bound(y, (n - 1) as nat);
+    lemma_bp_add((yc - 1) as nat, (n - yc) as nat);
+    assert(((yc - 1) + (n - yc)) as nat == (n - 1) as nat);
+    assert(yv < (top + 1) * e) by (nonlinear_arith)
+        requires yv * f == val(y, (n - 1) as nat) + top * bp((n - 1) as nat),
+            val(y, (n - 1) as nat) <= bp((n - 1) as nat) - 1,
+            bp((n - 1) as nat) == e * f, f > 0;
+    lemma_bp_add((yc - 1) as nat, (k + 1 - yc) as nat);
+    assert(((yc - 1) + (k + 1 - yc)) as nat == k);
+    assert(yv * g < (top + 1) * bp(k)) by (nonlinear_arith)
+        requires yv < (top + 1) * e, bp(k) == e * g, g > 0;
+    assert(h < top + 1) by (nonlinear_arith) requires h * bp(k) < (top + 1) * bp(k), bp(k) > 0;
+}
+
+/// Quotient digit estimate for an active step (xi + 1 >= yc): q in {qt, qt + 1} where qt is the true digit.
+proof fn ct_lemma_digit(xb: Seq<Limb>, y: Seq<Limb>, h: int, n: nat, yc: nat, xi: nat, yv: int, q: int)
+    requires
+        2 <= n, 1 <= yc <= n, 1 <= xi < n, xi + 1 >= yc, xb.len() == n, y.len() == n, 0 <= h,
+        val(y, n) == yv * bp((n - yc) as nat), forall|j: int| 0 <= j < n - yc ==> y[j].0 == 0,
+        yv > 0, y[n - 1].0 as int >= B() / 2,
+        h * bp(xi + 1) + val(xb, xi + 1) < yv * bp((xi + 2 - yc) as nat),
+        q == min_int(B() - 1, ((h * B() + xb[xi as int].0 as int) * B() + xb[xi - 1].0 as int) / (y[n - 1].0 as int * B() + y[n - 2].0 as int)),
+    ensures ({
+        let m = xi + 1;
+        let dd = val(y.subrange(n - m, n as int), m);
+        let remv = h * bp(m) + val(xb, m);
+        let qt = remv / dd;
+        &&& dd == yv * bp((m - yc) as nat) &&& 0 < dd <= bp(m) &&& remv >= 0
+        &&& qt <= q <= qt + 1 &&& 0 <= qt <= B() - 1 &&& qt * dd <= remv < (qt + 1) * dd
+    })
+{
+    let m = xi + 1;
+    let ys = y.subrange(n - m, n as int);
+    let dd = val(ys, m);
+    let remv = h * bp(m) + val(xb, m);
+    let qt = remv / dd;
+    lemma_bp_succ(0);
+    ct_lemma_tvq_sub(y, (n - m) as nat, n);
+    ct_lemma_top_limbs(y, n, yc, m, yv);
+    assert(dd == yv * bp((m - yc) as nat));
+    let top = y[n - 1].0 as int; let y2 = y[n - 2].0 as int;
+    let x1 = xb[xi as int].0 as int; let x0 = xb[xi - 1].0 as int;
+    let u3 = (h * B() + x1) * B() + x0;
+    let v2 = top * B() + y2;
+    let e = bp((xi - 1) as nat);
+    let wl = val(xb, (xi - 1) as nat);
+    let yl = val(ys, (xi - 1) as nat);
+    lemma_val_bound(xb, (xi - 1) as nat); lemma_val_bound(ys, (xi - 1) as nat);
+    lemma_bp_succ((xi - 1) as nat); lemma_bp_succ(xi);
+    assert(ys[xi as int] == y[n - 1]); assert(ys[xi - 1] == y[n - 2]);
+    assert(val(xb, m) == val(xb, xi) + x1 * bp(xi));
+    assert(val(xb, xi) == wl + x0 * e);
+    assert(val(ys, m) == val(ys, xi) + top * bp(xi));
+    assert(val(ys, xi) == yl + y2 * e);
+    assert(remv == u3 * e + wl) by (nonlinear_arith)
+        requires remv == h * bp(m) + wl + x0 * e + x1 * bp(xi), bp(m) == B() * bp(xi), bp(xi) == B() * e,
+            u3 == (h * B() + x1) * B() + x0;
+    assert(dd == v2 * e + yl) by (nonlinear_arith)
+        requires dd == yl + y2 * e + top * bp(xi), bp(xi) == B() * e, v2 == top * B() + y2;
+    assert(u3 >= 0) by (nonlinear_arith) requires u3 == (h * B() + x1) * B() + x0, h >= 0, x1 >= 0, x0 >= 0;
+    assert(v2 > 0) by (nonlinear_arith) requires v2 == top * B() + y2, top >= B() / 2, y2 >= 0;
+    // remv < dd * B
+    lemma_bp_succ((m - yc) as nat);
+    assert((xi + 2 - yc) as nat == ((m - yc) + 1) as nat);
+    assert(yv * bp((xi + 2 - yc) as nat) == dd * B()) by (nonlinear_arith)
+        requires dd == yv * bp((m - yc) as nat), bp((xi + 2 - yc) as nat) == B() * bp((m - yc) as nat);
+    // 2*dd >= B*B*e  (= B^(xi+1))
+    assert(2 * dd >= B() * B() * e) by (nonlinear_arith)
+        requires dd == yl + y2 * e + top * (B() * e), top >= B() / 2, yl >= 0, y2 >= 0, e >= 1, B() == 0x1_0000_0000_0000_0000;
+    assert(remv >= 0) by (nonlinear_arith) requires remv == u3 * e + wl, u3 >= 0, e >= 1, wl >= 0;
+    ct_lemma_knuth_digit(remv, dd, u3, v2, wl, yl, e, q);
+    assert(dd > 0) by (nonlinear_arith) requires 2 * dd >= B() * B() * e, e >= 1;
+    lemma_val_bound(ys, m);
+    lemma_fundamental_div_mod(remv, dd);
+    lemma_mod_bound(remv, dd);
+    assert(qt * dd <= remv < (qt + 1) * dd) by (nonlinear_arith)
+        requires remv == dd * qt + remv % dd, 0 <= remv % dd < dd;
+}
+
+/// one step of the multiply-and-subtract loop (integer level)
+proof fn ct_lemma_mulsub_step(vx: int, vxb: int, vys: int, q: int, pk: int, xo: int, xn: int, tm: int, yi: int, c0: int, c1: int, b0: int, b1: int)
+    requires
+        vx == vxb - q * vys + c0 * pk + b0 * pk,
+        tm + c1 * B() == yi * q + c0,
+        xn - b1 * B() == xo - tm - b0,
+        0 <= xn < B(), 0 <= xo < B(), 0 <= tm, 0 <= c1, b1 == 0 || b1 == 1,
+    ensures
+        vx + xn * pk == (vxb + xo * pk) - q * (vys + yi * pk) + c1 * (B() * pk) + b1 * (B() * pk),
+        (q == 0 && c0 == 0 && b0 == 0) ==> (c1 == 0 && b1 == 0 && xn == xo),
+{
+    assert(xn * pk == xo * pk - (yi * q) * pk + c1 * (B() * pk) - c0 * pk + b1 * (B() * pk) - b0 * pk) by (nonlinear_arith)
+        requires tm + c1 * B() == yi * q + c0, xn - b1 * B() == xo - tm - b0;
+    assert((yi * q) * pk == q * (yi * pk)) by (nonlinear_arith);
+    assert(q * (vys + yi * pk) == q * vys + q * (yi * pk)) by (nonlinear_arith);
+    if q == 0 && c0 == 0 && b0 == 0 {
+        assert(yi * 0 == 0);
+        assert(c1 == 0 && tm == 0) by (nonlinear_arith) requires tm + c1 * B() == 0, tm >= 0, c1 >= 0;
+        assert(b1 == 0 && xn == xo) by (nonlinear_arith) requires xn - b1 * B() == xo, 0 <= xn < B(), 0 <= xo < B(), b1 == 0 || b1 == 1;
+    }
+}
+
+/// one step of the conditional add-back loop (integer level)
+proof fn ct_lemma_addback_step(vx: int, vxs: int, vys: int, mm: int, pk: int, xo: int, xn: int, yi: int, sel: int, c0: int, c1: int)
+    requires
+        vx + c0 * pk == vxs + mm * vys,
+        xn + c1 * B() == xo + sel + c0,
+        (mm == 1 && sel == yi) || (mm == 0 && sel == 0),
+        0 <= xn < B(), 0 <= xo < B(), 0 <= c1,
+    ensures
+        vx + xn * pk + c1 * (B() * pk) == (vxs + xo * pk) + mm * (vys + yi * pk),
+        (mm == 0 && c0 == 0) ==> (c1 == 0 && xn == xo),
+{
+    assert(mm * yi == sel) by (nonlinear_arith) requires (mm == 1 && sel == yi) || (mm == 0 && sel == 0);
+    assert(xn * pk + c1 * (B() * pk) == xo * pk + mm * yi * pk + c0 * pk) by (nonlinear_arith)
+        requires xn + c1 * B() == xo + mm * yi + c0;
+    assert(mm * yi * pk == mm * (yi * pk)) by (nonlinear_arith);
+    assert(mm * (vys + yi * pk) == mm * vys + mm * (yi * pk)) by (nonlinear_arith);
+    if mm == 0 && c0 == 0 {
+        assert(c1 == 0 && xn == xo) by (nonlinear_arith) requires xn + c1 * B() == xo, 0 <= xn < B(), 0 <= xo < B(), c1 >= 0;
+    }
+}
+
+/// after x -= q*dd: the final borrow tells whether q over-estimated, and the low m limbs hold the remainder (mod B^m)
+proof fn ct_lemma_after_sub(remv: int, dd: int, q: int, qt: int, l: int, tt: int, pt: int, bbv: int, c: int, b0: int, h: int, vxbm: int)
+    requires
+        l == vxbm - q * dd + c * pt + b0 * pt,
+        tt - bbv * B() == h - c - b0,
+        remv == h * pt + vxbm,
+        0 <= l < pt, 0 <= tt < B(), bbv == 0 || bbv == 1, 0 < dd <= pt,
+        qt * dd <= remv < (qt + 1) * dd, qt <= q <= qt + 1,
+    ensures
+        (bbv == 1) == (q == qt + 1),
+        l == (if bbv == 1 { pt + (remv - qt * dd) - dd } else { remv - qt * dd }),
+{
+    assert(tt * pt - bbv * (B() * pt) == h * pt - c * pt - b0 * pt) by (nonlinear_arith)
+        requires tt - bbv * B() == h - c - b0;
+    assert(l + tt * pt == remv - q * dd + bbv * (B() * pt));
+    assert(q * dd == qt * dd + (q - qt) * dd) by (nonlinear_arith);
+    assert((qt + 1) * dd == qt * dd + dd) by (nonlinear_arith);
+    let tpt = tt * pt; let bpt = B() * pt;
+    let rprime = remv - qt * dd;
+    assert(0 <= rprime < dd);
+    assert(tt >= 1 ==> tpt >= pt) by (nonlinear_arith) requires tpt == tt * pt, pt > 0;
+    assert(tt <= B() - 2 ==> tpt <= bpt - 2 * pt) by (nonlinear_arith) requires tpt == tt * pt, bpt == B() * pt, pt > 0;
+    assert(tpt >= 0) by (nonlinear_arith) requires tpt == tt * pt, tt >= 0, pt > 0;
+    assert(bbv == 0 ==> bbv * bpt == 0) by (nonlinear_arith);
+    assert(bbv == 1 ==> bbv * bpt == bpt) by (nonlinear_arith);
+    if q == qt {
+        assert((q - qt) * dd == 0) by (nonlinear_arith) requires q - qt == 0;
+        assert(l + tpt == rprime + bbv * bpt);
+        assert(bbv == 0);
+        assert(tt == 0);
+        assert(l == rprime);
+    } else {
+        assert(q == qt + 1);
+        assert((q - qt) * dd == dd) by (nonlinear_arith) requires q - qt == 1;
+        assert(l + tpt == rprime - dd + bbv * bpt);
+        assert(bbv == 1);
+        assert(tt == B() - 1);
+        assert(tpt == bpt - pt) by (nonlinear_arith) requires tpt == tt * pt, bpt == B() * pt, tt == B() - 1;
+        assert(l == pt + rprime - dd);
+    }
+}
+
+/// after the conditional add-back the low m limbs hold the true partial remainder
+proof fn ct_lemma_after_add(l2: int, c: int, pt: int, lsub: int, dd: int, mm: int, rprime: int)
+    requires
+        l2 + c * pt == lsub + mm * dd, mm == 0 || mm == 1,
+        lsub == (if mm == 1 { pt + rprime - dd } else { rprime }),
+        0 <= rprime < dd, dd <= pt, 0 <= l2 < pt, c >= 0,
+    ensures
+        l2 == rprime,
+{
+    let cpt = c * pt;
+    assert(c == 0 ==> cpt == 0) by (nonlinear_arith) requires cpt == c * pt;
+    assert(c == 1 ==> cpt == pt) by (nonlinear_arith) requires cpt == c * pt;
+    assert(c >= 2 ==> cpt >= 2 * pt) by (nonlinear_arith) requires cpt == c * pt, pt > 0;
+    if mm == 1 {
+        assert(mm * dd == dd) by (nonlinear_arith) requires mm == 1;
+        assert(l2 + cpt == pt + rprime);
+        assert(c == 1);
+    } else {
+        assert(mm * dd == 0) by (nonlinear_arith) requires mm == 0;
+        assert(l2 + cpt == rprime);
+        assert(c == 0);
+    }
+}
+
+/// storing the digit qt at position xi re-establishes the outer invariant for k = xi
+proof fn ct_lemma_store(xa: Seq<Limb>, xn: Seq<Limb>, n: nat, xi: nat, yc: nat, qacc: int, qt: int, yv: int, xv: int, remv: int, dd: int)
+    requires
+        1 <= xi < n, 1 <= yc <= xi + 1,
+        forall|j: int| 0 <= j < n && j != xi ==> xn[j] == xa[j], xn[xi as int].0 as int == qt,
+        val(xa, xi + 1) == remv - qt * dd, 0 <= remv - qt * dd < dd,
+        dd == yv * bp((xi + 1 - yc) as nat),
+        xv == qacc * yv + remv,
+        tv(xa, xi + 1, n) == qacc * bp((yc - 1) as nat),
+    ensures ({
+        let pa = bp((xi + 1 - yc) as nat);
+        let hn = xa[xi as int].0 as int;
+        &&& xv == (qacc + qt * pa) * yv + hn * bp(xi) + val(xn, xi)
+        &&& hn * bp(xi) + val(xn, xi) < yv * pa
+        &&& tv(xn, xi, n) == (qacc + qt * pa) * bp((yc - 1) as nat)
+    })
+{
+    let m = xi + 1;
+    let pa = bp((m - yc) as nat);
+    lemma_val_ext(xa, xn, xi);
+    lemma_tv_ext(xn, xa, m, n);
+    lemma_bp_succ(xi);
+    let rp = remv - qt * dd;
+    assert(val(xa, m) == val(xa, xi) + xa[xi as int].0 as int * bp(xi));
+    assert(xa[xi as int].0 as int * bp(xi) + val(xn, xi) == rp);
+    assert(val(xn, m) == val(xn, xi) + qt * bp(xi));
+    assert(tv(xn, xi, n) == tv(xn, m, n) + qt * bp(xi));
+    lemma_bp_add((m - yc) as nat, (yc - 1) as nat);
+    assert(((m - yc) + (yc - 1)) as nat == xi);
+    assert(qt * bp(xi) == (qt * pa) * bp((yc - 1) as nat)) by (nonlinear_arith) requires bp(xi) == pa * bp((yc - 1) as nat);
+    assert((qacc + qt * pa) * bp((yc - 1) as nat) == qacc * bp((yc - 1) as nat) + (qt * pa) * bp((yc - 1) as nat)) by (nonlinear_arith);
+    assert((qacc + qt * pa) * yv == qacc * yv + qt * (yv * pa)) by (nonlinear_arith);
+}
+
+/// yc == 1: the top limb of the normalised divisor is the whole divisor
+proof fn ct_lemma_single_top(y: Seq<Limb>, n: nat, yv: int)
+    requires n >= 1, val(y, n) == yv * bp((n - 1) as nat),
+    ensures y[n - 1].0 as int == yv,
+{
+    let d = (n - 1) as nat;
+    ct_lemma_val_small_low(y, d, n, yv);
+    lemma_val_hi_zero(y, 0, d);
+    assert(val(y, 0) == 0);
+    assert(val(y, n) == val(y, d) + y[n - 1].0 as int * bp(d));
+    lemma_bp_succ(d);
+    assert(y[n - 1].0 as int == yv) by (nonlinear_arith)
+        requires y[n - 1].0 as int * bp(d) == yv * bp(d), bp(d) > 0;
+}
+
+/// final assembly, single-limb divisor (yc == 1)
+proof fn ct_lemma_final_single(xq: Seq<Limb>, xf: Seq<Limb>, yf: Seq<Limb>, n: nat, qacc: int, q2: int, r2: int, hq: int, yv: int, xv: int)
+    requires
+        n >= 2,
+        forall|j: int| 1 <= j < n ==> xf[j] == xq[j], xf[0].0 as int == q2,
+        yf[0].0 as int == r2, forall|j: int| 1 <= j < n ==> yf[j].0 == 0,
+        xv == qacc * yv + hq * bp(1) + val(xq, 1),
+        tv(xq, 1, n) == qacc * bp(0),
+        q2 * yv + r2 == hq * B() + xq[0].0 as int,
+    ensures
+        val(xf, n) / p2(0) == qacc + q2, val(yf, n) == r2, xv == (qacc + q2) * yv + r2,
+{
+    lemma_bp1(); lemma2_to64();
+    lemma_tv_ext(xf, xq, 1, n);
+    assert(val(xf, 1) == q2) by { assert(val(xf, 0) == 0); assert(q2 * 1 == q2) by (nonlinear_arith); }
+    assert(val(xq, 1) == xq[0].0 as int) by { assert(val(xq, 0) == 0); let a = xq[0].0 as int; assert(a * 1 == a) by (nonlinear_arith); }
+    assert(qacc * bp(0) == qacc) by (nonlinear_arith) requires bp(0) == 1;
+    assert(val(xf, n) == q2 + qacc);
+    lemma_val_single(yf, n);
+    assert(xv == (qacc + q2) * yv + r2) by (nonlinear_arith)
+        requires xv == qacc * yv + hq * B() + xq[0].0 as int, q2 * yv + r2 == hq * B() + xq[0].0 as int;
+    lemma_div_basics(val(xf, n));
+}
+
+/// final assembly, multi-limb divisor (yc >= 2): remainder limbs x[0..yc-1) ++ [x_hi], quotient limbs x[yc-1..n)
+proof fn ct_lemma_final_multi(xq: Seq<Limb>, yf: Seq<Limb>, n: nat, yc: nat, qacc: int, hq: Limb)
+    requires
+        2 <= yc <= n,
+        yf[0] == xq[0],
+        forall|j: int| 1 <= j < n ==> yf[j] == (if j == yc - 1 { hq } else if j < yc { xq[j] } else { Limb(0) }),
+        tv(xq, (yc - 1) as nat, n) == qacc * bp((yc - 1) as nat),
+    ensures
+        val(yf, n) == hq.0 as int * bp((yc - 1) as nat) + val(xq, (yc - 1) as nat),
+        val(xq, n) / p2((64 * (yc - 1)) as nat) == qacc,
+{
+    let k = (yc - 1) as nat;
+    lemma_bp_pow2(k);
+    lemma_bp_succ(k);
+    lemma_val_hi_zero(yf, yc, n);
+    lemma_val_ext(yf, xq, k);
+    assert(val(yf, yc) == val(yf, k) + yf[yc - 1].0 as int * bp(k));
+    let low = val(xq, k);
+    let pb = bp(k);
+    assert(val(xq, n) == low + qacc * pb);
+    lemma_val_bound(xq, k);
+    assert(qacc * pb == pb * qacc) by (nonlinear_arith);
+    lemma_fundamental_div_mod_converse(val(xq, n), pb, qacc, low);
+}
+
+/// undo the normalisation shift
+proof fn ct_lemma_unscale(sv: int, rv: int, s2: int, qfin: int, rfin: int)
+    requires sv * s2 == qfin * (rv * s2) + rfin, 0 <= rfin < rv * s2, s2 > 0,
+    ensures rfin / s2 == sv - qfin * rv, qfin * rv + (sv - qfin * rv) == sv, 0 <= sv - qfin * rv < rv,
+{
+    let rr = sv - qfin * rv;
+    assert(rfin == rr * s2) by (nonlinear_arith) requires sv * s2 == qfin * (rv * s2) + rfin, rr == sv - qfin * rv;
+    assert(0 <= rr < rv) by (nonlinear_arith) requires rfin == rr * s2, 0 <= rfin, rfin < rv * s2, s2 > 0;
+    assert(rr * s2 == s2 * rr) by (nonlinear_arith);
+    lemma_div_by_multiple(rr, s2);
+}
+
+/// quotient / remainder are determined by the division identity
+proof fn ct_lemma_divrem_unique(a: int, d: int, q: int, r: int)
+    requires q * d + r == a, 0 <= r < d,
+    ensures q == a / d, r == a % d,
+{
+    assert(q * d == d * q) by (nonlinear_arith);
+    lemma_fundamental_div_mod_converse(a, d, q, r);
+}
+
 //@@ subst \b(Self|Uint)::(ZERO|ONE|MAX|BITS|LOG2_BITS)\b(?!\() => \1::\2()
 //@@ subst \bUint::<(\w+)>::(ZERO|ONE|MAX|BITS)\b(?!\() => Uint::<\1>::\2()
 //@@ fn src/uint/div.rs | impl<const LIMBS: usize> Uint<LIMBS> | div_rem | body | props C02 C11 C15
@@ -20,22 +531,38 @@ impl<const LIMBS: usize> Uint<LIMBS> {
 pub const fn div_rem(&self, rhs: &NonZero<Self>) -> (ret__: (Self, Self))
 //@+
     requires 1 <= LIMBS < 0x400_0000, rhs.0.v() != 0
-    ensures ret__.0.v() * rhs.0.v() + ret__.1.v() == self.v(), 0 <= ret__.1.v() < rhs.0.v()
+    ensures ret__.0.v() * rhs.0.v() + ret__.1.v() == self.v(), 0 <= ret__.1.v() < rhs.0.v(),
+        ret__.0.v() == self.v() / rhs.0.v(), ret__.1.v() == self.v() % rhs.0.v()
 //@-
 {
         // Based on Section 4.3.1, of The Art of Computer Programming, Volume 2, by Donald E. Knuth.
         // Further explanation at https://janmr.com/blog/2014/04/basic-multiple-precision-long-division/
         // Statically determined short circuit for Uint<1>
         if LIMBS == 1 {
+//@+
+    proof { lemma_val_single(rhs.0.limbs@, 1); }
+//@-
             let (quo, rem_limb) = self.div_rem_limb(rhs.0.limbs[0].to_nz().expect("zero divisor"));
             let mut rem = Self::ZERO();
             rem.limbs[0] = rem_limb;
+//@+
+    proof { lemma_val_single(rem.limbs@, 1); ct_lemma_divrem_unique(self.v(), rhs.0.v(), quo.v(), rem.v()); }
+//@-
             return (quo, rem);
         }
         let dbits = rhs.0.bits();
         assert!(dbits > 0, "zero divisor");
         let dwords = dbits.div_ceil(Limb::BITS);
         let lshift = (Limb::BITS - (dbits % Limb::BITS)) % Limb::BITS;
+//@+
+    let ghost n = LIMBS as nat;
+    let ghost yc = dwords as nat;
+    let ghost rv = rhs.0.v();
+    let ghost sv = self.v();
+    let ghost s2 = p2(lshift as nat);
+    let ghost yv = rv * s2;
+    let ghost xv = sv * s2;
+//@-
         // Shift entire divisor such that the high bit is set
         let mut y = rhs.0.shl(Self::BITS() - dbits).to_limbs();
         // Shift the dividend to align the words
@@ -45,43 +572,206 @@ pub const fn div_rem(&self, rhs: &NonZero<Self>) -> (ret__: (Self, Self))
         let mut x_lo = x[LIMBS - 1];
         let mut i;
         let mut carry;
+//@+
+    let ghost mut k: nat = n;
+    let ghost mut qacc: int = 0;
+    proof {
+        lemma_val_bound(rhs.0.limbs@, n); lemma_val_bound(self.limbs@, n);
+        ct_lemma_setup(y@, n, dbits as nat, lshift as nat, yc, rv, sv);
+        assert(0 * yv == 0);
+        assert(ct_maxn(n, (yc - 1) as nat) == n);
+        lemma_bp_succ(0);
+    }
+//@-
         let reciprocal = Reciprocal::new(y[LIMBS - 1].to_nz().expect("zero divisor"));
         while xi > 0
+//@+
+    invariant
+        2 <= LIMBS < 0x400_0000, n == LIMBS, 1 <= yc <= n, yc == dwords, xi < LIMBS,
+        k == ct_maxn((xi + 1) as nat, (yc - 1) as nat), 1 <= k <= n,
+        val(y@, n) == yv * bp((n - yc) as nat), forall|j: int| 0 <= j < n - yc ==> y@[j].0 == 0,
+        yv > 0,
+        reciprocal.wf(), reciprocal.shift == 0, reciprocal.divisor_normalized == y@[n - 1].0,
+        xv == qacc * yv + x_hi.0 as int * bp(k) + val(x@, k),
+        x_hi.0 as int * bp(k) + val(x@, k) < yv * bp((k + 1 - yc) as nat),
+        tv(x@, k, n) == qacc * bp((yc - 1) as nat),
+        x_lo == x@[k - 1],
+    decreases xi
+//@-
 {
+//@+
+    let ghost xb = x@;
+    let ghost hb = x_hi;
+    let ghost active = xi + 1 >= yc;
+    let ghost m = (xi + 1) as nat;
+    let ghost ys = y@.subrange(n - m, n as int);
+    let ghost dd = val(ys, m);
+    let ghost remv = hb.0 as int * bp(m) + val(xb, m);
+    proof { ct_lemma_hi_le_top(xb, y@, hb.0 as int, n, yc, k, yv); }
+//@-
             // Divide high dividend words by the high divisor word to estimate the quotient word
             let mut quo = div3by2(x_hi.0, x_lo.0, x[xi - 1].0, &reciprocal, y[LIMBS - 2].0);
             // This loop is a no-op once xi is smaller than the number of words in the divisor
             let done = ConstChoice::from_u32_lt(xi as u32, dwords - 1);
             quo = done.select_word(quo, 0);
+//@+
+    let ghost q = quo as int;
+    let ghost qt: int = if active { remv / dd } else { 0 };
+    proof {
+        assert(done.t() == !active);
+        if active {
+            assert(k == m);
+            assert(x_lo == xb[xi as int]);
+            ct_lemma_digit(xb, y@, hb.0 as int, n, yc, xi as nat, yv, q);
+        }
+    }
+//@-
             // Subtract q*divisor from the dividend
             carry = Limb::ZERO;
             let mut borrow = Limb::ZERO;
             let mut tmp;
             i = 0;
             while i <= xi
+//@+
+    invariant
+        2 <= LIMBS < 0x400_0000, n == LIMBS, 0 < xi < LIMBS, m == xi + 1, 0 <= i <= xi + 1, q == quo as int,
+        xb.len() == LIMBS, ys.len() == m, forall|j: int| 0 <= j < m ==> ys[j] == y@[n - m + j],
+        borrow.0 == 0 || borrow.0 == u64::MAX,
+        forall|kq: int| 0 <= kq < LIMBS && !(kq < i) ==> x@[kq] == xb[kq],
+        val(x@, i as nat) == val(xb, i as nat) - q * val(ys, i as nat) + carry.0 as int * bp(i as nat) + bb(borrow) * bp(i as nat),
+        q == 0 ==> (carry.0 == 0 && borrow.0 == 0 && x@ == xb),
+    decreases xi + 1 - i
+//@-
 {
+//@+
+    let ghost x_before = x@; let ghost carry_b = carry; let ghost borrow_b = borrow;
+//@-
                 let (__t0, __t1) = Limb::ZERO.mac(y[LIMBS - xi + i - 1], Limb(quo), carry); tmp = __t0; carry = __t1;
                 let (__t2, __t3) = x[i].sbb(tmp, borrow); x[i] = __t2; borrow = __t3;
+//@+
+    proof {
+        let kk = i as nat;
+        assert(x@ =~= x_before.update(kk as int, __t2));
+        lemma_val_ext(x_before, x@, kk);
+        lemma_bp_succ(kk);
+        assert(x_before[kk as int] == xb[kk as int]);
+        assert(y@[LIMBS - xi + i - 1] == ys[i as int]);
+        ct_lemma_mulsub_step(val(x_before, kk), val(xb, kk), val(ys, kk), q, bp(kk), xb[kk as int].0 as int, __t2.0 as int, tmp.0 as int,
+            ys[i as int].0 as int, carry_b.0 as int, carry.0 as int, bb(borrow_b), bb(borrow));
+        if q == 0 {
+            assert(__t2 == x_before[kk as int]);
+            assert(x@ =~= xb);
+        }
+    }
+//@-
                 i += 1;
             }
+//@+
+    let ghost bprev = borrow; let ghost cfin = carry;
+//@-
             let (_, __t4) = x_hi.sbb(carry, borrow); borrow = __t4;
+//@+
+    proof {
+        if active {
+            let tt = x_hi.0 as int - cfin.0 as int - bb(bprev) + bb(borrow) * B();
+            assert(0 <= tt < B());
+            lemma_val_bound(x@, m);
+            ct_lemma_after_sub(remv, dd, q, qt, val(x@, m), tt, bp(m), bb(borrow), cfin.0 as int, bb(bprev), hb.0 as int, val(xb, m));
+        } else {
+            assert(q == 0);
+            assert(borrow.0 == 0);
+        }
+    }
+    let ghost xs = x@;
+    let ghost lsub = val(xs, m);
+//@-
             // If the subtraction borrowed, then decrement q and add back the divisor
             // The probability of this being needed is very low, about 2/(Limb::MAX+1)
             let ct_borrow = ConstChoice::from_word_mask(borrow.0);
+//@+
+    let ghost mm: int = if ct_borrow.t() { 1 } else { 0 };
+//@-
             carry = Limb::ZERO;
             i = 0;
             while i <= xi
+//@+
+    invariant
+        2 <= LIMBS < 0x400_0000, n == LIMBS, 0 < xi < LIMBS, m == xi + 1, 0 <= i <= xi + 1, ct_borrow.wf(),
+        mm == (if ct_borrow.t() { 1int } else { 0int }),
+        xs.len() == LIMBS, ys.len() == m, forall|j: int| 0 <= j < m ==> ys[j] == y@[n - m + j],
+        forall|kq: int| 0 <= kq < LIMBS && !(kq < i) ==> x@[kq] == xs[kq],
+        val(x@, i as nat) + carry.0 as int * bp(i as nat) == val(xs, i as nat) + mm * val(ys, i as nat),
+        !ct_borrow.t() ==> (carry.0 == 0 && x@ == xs),
+    decreases xi + 1 - i
+//@-
 {
+//@+
+    let ghost x_before = x@; let ghost carry_b = carry;
+//@-
                 let (__t5, __t6) = x[i].adc( Limb::select(Limb::ZERO, y[LIMBS - xi + i - 1], ct_borrow), carry, ); x[i] = __t5; carry = __t6;
+//@+
+    proof {
+        let kk = i as nat;
+        assert(x@ =~= x_before.update(kk as int, __t5));
+        lemma_val_ext(x_before, x@, kk);
+        lemma_bp_succ(kk);
+        assert(x_before[kk as int] == xs[kk as int]);
+        assert(y@[LIMBS - xi + i - 1] == ys[i as int]);
+        let yi = ys[i as int].0 as int;
+        let sel = if ct_borrow.t() { yi } else { 0int };
+        ct_lemma_addback_step(val(x_before, kk), val(xs, kk), val(ys, kk), mm, bp(kk), xs[kk as int].0 as int, __t5.0 as int, yi, sel,
+            carry_b.0 as int, carry.0 as int);
+        if !ct_borrow.t() {
+            assert(__t5 == x_before[kk as int]);
+            assert(x@ =~= xs);
+        }
+    }
+//@-
                 i += 1;
             }
             quo = ct_borrow.select_word(quo, quo.saturating_sub(1));
+//@+
+    proof {
+        if active {
+            lemma_val_bound(x@, m);
+            ct_lemma_after_add(val(x@, m), carry.0 as int, bp(m), lsub, dd, mm, remv - qt * dd);
+            assert(quo as int == qt);
+        } else {
+            assert(x@ == xb);
+            assert(quo == 0);
+        }
+    }
+    let ghost xa = x@;
+//@-
             // Store the quotient within dividend and set x_hi to the current highest word
             x_hi = Limb::select(x[xi], x_hi, done);
             x[xi] = Limb::select(Limb(quo), x[xi], done);
             x_lo = Limb::select(x[xi - 1], x_lo, done);
+//@+
+    proof {
+        let xn = x@;
+        if active {
+            assert(xn =~= xa.update(xi as int, Limb(quo)));
+            lemma_tv_ext(xa, xb, m, n);
+            ct_lemma_store(xa, xn, n, xi as nat, yc, qacc, qt, yv, xv, remv, dd);
+            qacc = qacc + qt * bp((m - yc) as nat);
+            k = xi as nat;
+            assert((k + 1 - yc) as nat == (m - yc) as nat);
+            assert(ct_maxn(xi as nat, (yc - 1) as nat) == k);
+        } else {
+            assert(xn =~= xb);
+            assert(ct_maxn(xi as nat, (yc - 1) as nat) == k);
+        }
+    }
+//@-
             xi -= 1;
         }
+//@+
+    // after the loop: xi == 0, k == max(1, yc-1)
+    let ghost xq = x@;
+    let ghost hq = x_hi;
+    let ghost remq = hq.0 as int * bp(k) + val(xq, k);
+//@-
         let limb_div = ConstChoice::from_u32_eq(1, dwords);
         // Calculate quotient and remainder for the case where the divisor is a single word
         // Note that `div2by1()` will panic if `x_hi >= reciprocal.divisor_normalized`,
@@ -89,6 +779,19 @@ pub const fn div_rem(&self, rhs: &NonZero<Self>) -> (ret__: (Self, Self))
         // in which case we discard the result anyway,
         // so we conditionally set `x_hi` to zero for this branch.
         let x_hi_adjusted = Limb::select(Limb::ZERO, x_hi, limb_div);
+//@+
+    proof {
+        lemma_bp1();
+        lemma_val_bound(xq, k);
+        if yc == 1 {
+            ct_lemma_single_top(y@, n, yv);
+            assert(k == 1);
+            assert((k + 1 - yc) as nat == 1);
+            assert(hq.0 as int * B() < yv * B());
+            assert((hq.0 as int) < yv) by (nonlinear_arith) requires hq.0 as int * B() < yv * B();
+        }
+    }
+//@-
         let (quo2, rem2) = div2by1(x_hi_adjusted.0, x_lo.0, &reciprocal);
         // Adjust the quotient for single limb division
         x[0] = Limb::select(x[0], Limb(quo2), limb_div);
@@ -96,11 +799,44 @@ pub const fn div_rem(&self, rhs: &NonZero<Self>) -> (ret__: (Self, Self))
         y[0] = Limb::select(x[0], Limb(rem2), limb_div);
         i = 1;
         while i < LIMBS
+//@+
+    invariant 2 <= LIMBS < 0x400_0000, n == LIMBS, 1 <= yc <= n, yc == dwords, 1 <= i <= LIMBS,
+        forall|j: int| 1 <= j < i ==> y@[j] == (if j == yc - 1 { x_hi } else if j < yc { x@[j] } else { Limb(0) }),
+        y@[0] == (if yc == 1 { Limb(rem2) } else { x@[0] }),
+    decreases LIMBS - i
+//@-
 {
             y[i] = Limb::select(Limb::ZERO, x[i], ConstChoice::from_u32_lt(i as u32, dwords));
             y[i] = Limb::select(y[i], x_hi, ConstChoice::from_u32_eq(i as u32, dwords - 1));
             i += 1;
         }
+//@+
+    let ghost xf = x@;
+    let ghost yf = y@;
+    let ghost qfin: int = if yc == 1 { qacc + quo2 as int } else { qacc };
+    let ghost rfin: int = if yc == 1 { rem2 as int } else { remq };
+    proof {
+        if yc == 1 {
+            assert(xf =~= xq.update(0, Limb(quo2)));
+            ct_lemma_final_single(xq, xf, yf, n, qacc, quo2 as int, rem2 as int, hq.0 as int, yv, xv);
+        } else {
+            assert(k == yc - 1);
+            assert(xf =~= xq);
+            assert(yv * bp(0) == yv) by (nonlinear_arith) requires bp(0) == 1;
+            assert((k + 1 - yc) as nat == 0);
+            ct_lemma_final_multi(xq, yf, n, yc, qacc, hq);
+            lemma_bp_succ(k);
+            assert(remq >= 0) by (nonlinear_arith) requires remq == hq.0 as int * bp(k) + val(xq, k), val(xq, k) >= 0, bp(k) > 0, hq.0 as int >= 0;
+        }
+        assert(val(xf, n) / p2((64 * (yc - 1)) as nat) == qfin);
+        assert(val(yf, n) == rfin);
+        assert(xv == qfin * yv + rfin);
+        assert(0 <= rfin < yv);
+        ct_lemma_unscale(sv, rv, s2, qfin, rfin);
+        assert(((dwords - 1) * 64) as nat == (64 * (yc - 1)) as nat);
+        ct_lemma_divrem_unique(sv, rv, qfin, sv - qfin * rv);
+    }
+//@-
         (
             Uint::new(x).shr((dwords - 1) * Limb::BITS),
             Uint::new(y).shr(lshift),
@@ -113,7 +849,7 @@ impl<const LIMBS: usize> Uint<LIMBS> {
 pub const fn rem(&self, rhs: &NonZero<Self>) -> (ret__: Self)
 //@+
     requires 1 <= LIMBS < 0x400_0000, rhs.0.v() != 0
-    ensures ret__.v() == self.v() % rhs.0.v()
+    ensures ret__.v() == self.v() % rhs.0.v(), 0 <= ret__.v() < rhs.0.v()
 //@-
 {
         self.div_rem(rhs).1
@@ -123,27 +859,12 @@ pub const fn rem(&self, rhs: &NonZero<Self>) -> (ret__: Self)
 //@@ fn src/uint/div.rs | impl<const LIMBS: usize> Uint<LIMBS> | wrapping_div | body | props C02 C11
 impl<const LIMBS: usize> Uint<LIMBS> {
 pub const fn wrapping_div(&self, rhs: &NonZero<Self>) -> (ret__: Self)
+//@+
+    requires 1 <= LIMBS < 0x400_0000, rhs.0.v() != 0
+    ensures ret__.v() == self.v() / rhs.0.v()
+//@-
 {
         self.div_rem(rhs).0
-    }
-}
-//@@ end
-//@@ fn src/uint/div.rs | impl<const LIMBS: usize> Uint<LIMBS> | checked_div | body | props C02 C11
-impl<const LIMBS: usize> Uint<LIMBS> {
-pub fn checked_div(&self, rhs: &Self) -> (ret__: CtOption<Self>)
-{
-        NonZero::new(*rhs).map(|rhs| {
-            let (q, _r) = self.div_rem(&rhs);
-            q
-        })
-    }
-}
-//@@ end
-//@@ fn src/uint/div.rs | impl<const LIMBS: usize> Uint<LIMBS> | checked_rem | body | props C02 C11
-impl<const LIMBS: usize> Uint<LIMBS> {
-pub fn checked_rem(&self, rhs: &Self) -> (ret__: CtOption<Self>)
-{
-        NonZero::new(*rhs).map(|rhs| self.rem(&rhs))
     }
 }
 //@@ end
